@@ -66,6 +66,22 @@ def enc_targets(t):
     return "none" if t is None else ("-" if not t else ",".join(map(str, t)))
 
 
+def spec_json(sp):
+    if sp[0] == "R":
+        return ["R", json_T(sp[1]), json_T(sp[2]), sp[3]]
+    if sp[0] == "D":
+        return ["D", sp[1], list(sp[2]), bool(sp[3])]
+    return ["C"]
+
+
+def spec_unjson(sp):
+    if sp[0] == "R":
+        return ("R", unjson_T(sp[1]), unjson_T(sp[2]), sp[3])
+    if sp[0] == "D":
+        return ("D", int(sp[1]), list(sp[2]), bool(sp[3]))
+    return ("C",)
+
+
 def classify_exc(e):
     msg = str(e)
     if isinstance(e, ValueError):
@@ -306,13 +322,18 @@ class C15(PropertyCheck):
         mst, mels = parse_model(model)
         ist, iels, extra = impl_elements(via, dims, t1, t2, targets, specs, device, numpy_float)
         inp = {"via": via, "dims": dims, "t1": json_T(t1), "t2": json_T(t2), "targets": targets,
-               "noises": [list(map(lambda x: json_T(x) if isinstance(x, (Fraction, list)) or x is None else x, s)) for s in specs],
+               "noises": [spec_json(sp) for sp in specs],
                "device": device, "np": numpy_float}
         res.case(inp, nontrivial=(t1 is not None or t2 is not None or bool(specs)),
                  tags=list(tags) + [f"via={via}", f"N={len(dims)}", "verdict=" + mst.split(":")[0]])
         v = valid_times(dims, t1, t2) if via != "noise" or targets is None else None
-        if specs or not device:
+        if not device:
             wit = None
+        elif specs:
+            # the same processor asked twice, as the Processor entry point of this correspondence does
+            srcs_ok = v is True and all(valid_times(dims, sp[1], sp[2]) is True for sp in specs if sp[0] == "R")
+            wit = {"kind": "history", "dims": dims, "t1": json_T(t1), "t2": json_T(t2), "noises": [spec_json(sp) for sp in specs],
+                   "calls": ["pulses", "qobjevo"], "drive": False} if srcs_ok else None
         elif v is True:
             wit = {"kind": "decay", "dims": dims, "t1": json_T(t1), "t2": json_T(t2)}
         elif v is False:
@@ -455,6 +476,8 @@ class C15(PropertyCheck):
                     return self._physical(ctx, w)
                 except Exception as e:
                     return True, f"noisy simulation crashed: {type(e).__name__}: {str(e)[:120]}"
+            if kind == "history":
+                return self._history(ctx, w)
             dims = w["dims"]
             N = len(dims)
             t1, t2 = unjson_T(w["t1"]), unjson_T(w["t2"])
@@ -483,22 +506,116 @@ class C15(PropertyCheck):
                 r = qutip.mesolve(H, rho0, times, c_ops=c_ops, options={"atol": 1e-11, "rtol": 1e-9, "nsteps": 100000})
             except Exception as e:
                 return True, f"the master equation of the returned (H, c_ops) cannot be integrated: {type(e).__name__}: {str(e)[:80]}"
-            for t, st in zip(times, r.states):
-                bad = self._physical_state(st)
-                if bad:
-                    return True, f"state at t={t:.4g}: {bad}"
-                for q in range(N):
-                    m = st.ptrace(q).full()
-                    g1 = 0.0 if l1[q] is None else 1 / float(l1[q])
-                    g2 = (1 / float(l2[q])) if l2[q] is not None else g1 / 2
-                    e11, e01 = 0.5 * np.exp(-g1 * t), 0.5 * np.exp(-g2 * t)
-                    if abs(m[1, 1].real - e11) > 2e-6:
-                        return True, (f"subsystem {q} (dim {dims[q]}): population {m[1, 1].real:.9f} at t={t:.4g}, "
-                                      f"expected 0.5*exp(-t/t1) = {e11:.9f}")
-                    if abs(abs(m[0, 1]) - e01) > 2e-6:
-                        return True, (f"subsystem {q} (dim {dims[q]}): coherence {abs(m[0, 1]):.9f} at t={t:.4g}, "
-                                      f"expected {e01:.9f}")
+            g1 = [0.0 if l1[q] is None else 1 / float(l1[q]) for q in range(N)]
+            g2 = [(1 / float(l2[q])) if l2[q] is not None else g1[q] / 2 for q in range(N)]
+            bad = self._decay_check(dims, times, r.states, g1, g2)
+            if bad:
+                return True, bad
             return False, "decay laws, trace, Hermiticity and positivity hold at 4 times"
+
+    def _decay_check(self, dims, times, states, g1, g2, tol=2e-6):
+        """every subsystem of the product of (|0>+|1>)/sqrt2: rho11 = exp(-g1 t)/2, |rho01| = exp(-g2 t)/2"""
+        qutip = _impl()[0]
+        for t, st in zip(times, states):
+            st = st if st.isoper else qutip.ket2dm(st)
+            bad = self._physical_state(st)
+            if bad:
+                return f"state at t={t:.4g}: {bad}"
+            for q in range(len(dims)):
+                m = st.ptrace(q).full()
+                e11, e01 = 0.5 * np.exp(-g1[q] * t), 0.5 * np.exp(-g2[q] * t)
+                if abs(m[1, 1].real - e11) > tol:
+                    return (f"subsystem {q} (dim {dims[q]}): population {m[1, 1].real:.9f} at t={t:.4g}, "
+                            f"expected 0.5*exp(-t/t1) = {e11:.9f}")
+                if abs(abs(m[0, 1]) - e01) > tol:
+                    return (f"subsystem {q} (dim {dims[q]}): coherence {abs(m[0, 1]):.9f} at t={t:.4g}, "
+                            f"expected {e01:.9f}")
+        return None
+
+    def _history(self, ctx, w):
+        """ONE processor with t1/t2 and 0-2 further noise objects, asked 1-3 times for its noisy dynamics
+        (get_noisy_pulses / get_qobjevo(noisy=True)+mesolve / run_state): the number and the rates of the collapse
+        operators, the decay curves and the processor's own noise list must be the specified ones at EVERY call."""
+        qutip, noise, Processor = _impl()
+        dims = list(w["dims"])
+        N = len(dims)
+        t1, t2 = unjson_T(w["t1"]), unjson_T(w["t2"])
+        specs = [spec_unjson(sp) for sp in w.get("noises", [])]
+        calls = list(w.get("calls", ["qobjevo", "qobjevo"]))
+        sources = [(t1, t2, None)] + [(sp[1], sp[2], sp[3]) for sp in specs if sp[0] == "R"]
+        if any(valid_times(dims, a, b) is not True for a, b, _ in sources):
+            return False, "a relaxation source is invalid: not a history of the property's class"
+        objs, user, _ = build_noises(specs)
+        # specification, written directly: rates add up over the sources
+        g1, g2, n_ops = [0.0] * N, [0.0] * N, 0
+        d_rate, n_rate = [0.0] * N, [0.0] * N          # expected sum of squared prefactors of destroy / num per subsystem
+        for a, b, tg in sources:
+            la = a if isinstance(a, list) else [a] * N
+            lb = b if isinstance(b, list) else [b] * N
+            for q in (range(N) if tg is None else tg):
+                if la[q] is not None:
+                    g1[q] += 1 / float(la[q]); g2[q] += 0.5 / float(la[q]); d_rate[q] += 1 / float(la[q]); n_ops += 1
+                if lb[q] is not None:
+                    deph = 1 / float(lb[q]) - (0.5 / float(la[q]) if la[q] is not None else 0.0)
+                    if not (la[q] is not None and lb[q] == 2 * la[q]):
+                        n_ops += 1
+                        g2[q] += deph; n_rate[q] += 2 * deph
+        ui = 0
+        for sp in specs:
+            if sp[0] == "D":
+                for _ in range(sp[1]):
+                    c = float(user[ui].full()[0, 0].real)       # c * sigma_z: extra dephasing 2 c^2
+                    ui += 1
+                    for q in (range(N) if sp[3] else sp[2]):
+                        g2[q] += 2 * c * c
+                        n_ops += 1
+        l_all = [float(x) for a, b, _ in sources for T in (a, b) if T is not None for x in (T if isinstance(T, list) else [T]) if x is not None]
+        scale = min(l_all, default=1.0)
+        times = [0.0] + [scale * f for f in (0.25, 1.0, 2.5)]
+        rho0 = qutip.ket2dm(qutip.tensor([(qutip.basis(d, 0) + qutip.basis(d, 1)).unit() for d in dims]))
+        try:
+            p = Processor(N, dims=dims, t1=py_T(t1), t2=py_T(t2))
+            if w.get("drive"):
+                # a diagonal drive on subsystem 0: changes neither populations nor |rho01|
+                tl = np.linspace(0.0, times[-1], 6)
+                p.add_control(qutip.num(dims[0]), targets=0, label="z0")
+                p.set_coeffs({"z0": np.full(5, 0.7 / scale)})
+                p.set_tlist({"z0": tl})
+            for o in objs:
+                p.add_noise(o)
+            n0 = len(p.noise)
+        except Exception as e:
+            return True, f"valid processor set-up raised {type(e).__name__}: {str(e)[:100]}"
+        opts = {"atol": 1e-11, "rtol": 1e-9, "nsteps": 100000}
+        for k, call in enumerate(calls, 1):
+            states = None
+            try:
+                if call == "pulses":
+                    els = [canon_element(e, user) for e in p.get_noisy_pulses(device_noise=True)[-1].lindblad_noise]
+                    if len(els) != n_ops:
+                        return True, f"call {k} (get_noisy_pulses): {len(els)} Lindblad operators, specified {n_ops}"
+                    for q in range(N):
+                        dsum = sum(c for tg, kd, _, c, _ in els if kd == "destroy" and tg == [q])
+                        nsum = sum(c for tg, kd, _, c, _ in els if kd == "num" and tg == [q])
+                        if abs(dsum - d_rate[q]) > 1e-9 * (1 + d_rate[q]) or abs(nsum - n_rate[q]) > 1e-9 * (1 + n_rate[q] + g2[q]):
+                            return True, (f"call {k} (get_noisy_pulses): subsystem {q} relaxes with rate {dsum:.9g} (specified "
+                                          f"{d_rate[q]:.9g}), dephasing prefactor^2 {nsum:.9g} (specified {n_rate[q]:.9g})")
+                elif call == "qobjevo":
+                    H, c_ops = p.get_qobjevo(noisy=True)
+                    if len(c_ops) != n_ops:
+                        return True, f"call {k} (get_qobjevo): {len(c_ops)} collapse operators, specified {n_ops}"
+                    states = qutip.mesolve(H, rho0, times, c_ops=c_ops, options=dict(opts)).states
+                else:
+                    states = p.run_state(rho0, tlist=times, options=dict(opts)).states
+            except Exception as e:
+                return True, f"call {k} ({call}) raised {type(e).__name__}: {str(e)[:100]}"
+            if states is not None:
+                bad = self._decay_check(dims, times, states, g1, g2)
+                if bad:
+                    return True, f"call {k} ({call}) of the same processor: " + bad
+            if len(p.noise) != n0:
+                return True, f"after call {k} ({call}) the processor carries {len(p.noise)} noise objects instead of {n0}"
+        return False, f"{len(calls)} calls: same {n_ops} collapse operators, same decay laws, noise list unchanged"
 
     @staticmethod
     def _physical_state(st):
@@ -590,6 +707,35 @@ class C15(PropertyCheck):
             t1, t2 = [a] * (N + 1), b
         return {"kind": "reject", "dims": dims, "t1": json_T(t1), "t2": json_T(t2)}
 
+    def _history_witness(self, rng):
+        dims = [rng.choice([2, 2, 3]) for _ in range(rng.randint(1, 2))]
+        N = len(dims)
+        rel = rng.choice(["inside", "inside", "boundary", "near"])
+        ps = [pair(rng, rel) for _ in range(N)]
+        shape = rng.choice(["s/s", "s/none", "none/s", "l/l"])
+        if shape == "s/s":
+            t1, t2 = ps[0]
+        elif shape == "s/none":
+            t1, t2 = ps[0][0], None
+        elif shape == "none/s":
+            t1, t2 = None, ps[0][1]
+        else:
+            t1, t2 = [x[0] for x in ps], [x[1] for x in ps]
+        specs = []
+        two = [q for q in range(N) if dims[q] == 2]
+        for _ in range(rng.randint(0, 2)):
+            k = rng.choice("CCDR")
+            if k == "D" and two:
+                specs.append(("D", 1, [rng.choice(two)], False))
+            elif k == "R":
+                a, b = pair(rng, rng.choice(["inside", "boundary"]))
+                specs.append(("R", rng.choice([a, None]), b, sorted(rng.sample(range(N), rng.randint(1, N)))))
+            else:
+                specs.append(("C",))
+        calls = [rng.choice(["qobjevo", "pulses", "run"]) for _ in range(rng.randint(1, 3))]
+        return {"kind": "history", "dims": dims, "t1": json_T(t1), "t2": json_T(t2), "noises": [spec_json(sp) for sp in specs],
+                "calls": calls, "drive": rng.random() < 0.5}
+
     def _physical_witness(self, rng):
         dev = rng.choice(["spinchain", "spinchain", "scqubits"])
         models = [m for m in ["relax", "random", "collapse", "amp", "zz"] if rng.random() < 0.6] or ["relax"]
@@ -605,6 +751,11 @@ class C15(PropertyCheck):
                  {"kind": "decay", "dims": [2], "t1": "1", "t2": "3/2"},
                  {"kind": "decay", "dims": [3], "t1": "2", "t2": "1"},
                  {"kind": "decay", "dims": [2, 3], "t1": ["1", "2"], "t2": ["2", "1"]},
+                 {"kind": "history", "dims": [2], "t1": "1", "t2": "3/2", "noises": [], "calls": ["qobjevo", "qobjevo"], "drive": False},
+                 {"kind": "history", "dims": [2], "t1": "1", "t2": "3/2", "noises": [["C"]], "calls": ["qobjevo", "qobjevo"], "drive": False},
+                 {"kind": "history", "dims": [2], "t1": "1", "t2": "3/2", "noises": [["C"]], "calls": ["run", "run", "run"], "drive": True},
+                 {"kind": "history", "dims": [2, 3], "t1": "2", "t2": None, "noises": [["D", 1, [0], False]],
+                  "calls": ["pulses", "qobjevo", "run"], "drive": False},
                  {"kind": "reject", "dims": [2], "t1": "1", "t2": "5/2"},
                  {"kind": "reject", "dims": [2], "t1": "0", "t2": None},
                  {"kind": "reject", "dims": [2, 2], "t1": ["1"], "t2": None}]
@@ -613,7 +764,8 @@ class C15(PropertyCheck):
             if f:
                 yield w, d
         while time.time() - t0 < budget_s:
-            w = ctx.rng.choice([self._decay_witness, self._decay_witness, self._reject_witness, self._physical_witness])(ctx.rng)
+            w = ctx.rng.choice([self._decay_witness, self._history_witness, self._history_witness, self._reject_witness,
+                                self._physical_witness])(ctx.rng)
             try:
                 f, d = self.oracle_replay(ctx, w)
             except Exception as e:
@@ -626,6 +778,8 @@ class C15(PropertyCheck):
         ws += [self._decay_witness(ctx.rng) for _ in range(12 if ctx.thorough else 5)]
         ws += [self._reject_witness(ctx.rng) for _ in range(12 if ctx.thorough else 6)]
         ws += [self._physical_witness(ctx.rng) for _ in range(10 if ctx.thorough else 3)]
+        ws += [{"kind": "history", "dims": [2], "t1": "1", "t2": "3/2", "noises": [["C"]], "calls": ["qobjevo", "run"], "drive": True}]
+        ws += [self._history_witness(ctx.rng) for _ in range(20 if ctx.thorough else 6)]
         for w in ws:
             try:
                 f, d = self.oracle_replay(ctx, w)
